@@ -310,12 +310,16 @@ def interpolateGrid (bases : List (Basis K)) (tol : K) (u : Option (List (List K
   let cp ← interpolateGridCore bases tol u x
   throughConstructor cp bases.length
 
+/-- Prologue of surface/volume `least_square_fit`:
+    `if len(x.shape) == 2: x = x.reshape([len(t) for t in u] + [dim])`. -/
+def gridInputLsq (us : List (List K)) (x : Tensor K) : PyM (Tensor K) :=
+  if x.shape.length = 2 then reshape x (us.map List.length ++ [x.shape.getLastD 1]) else .ok x
+
 /-- The two loops of `least_square_fit` (surface / volume). -/
 def leastSquareGridCore (bases : List (Basis K)) (tol : K) (us : List (List K)) (x : Tensor K) :
     PyM (Tensor K) := do
   let pd := bases.length
-  -- `if len(x.shape) == 2: x = x.reshape([len(t) for t in u] + [dim])`
-  let x ← if x.shape.length = 2 then reshape x (us.map List.length ++ [x.shape.getLastD 1]) else pure x
+  let x ← gridInputLsq us x
   let Nall := ((List.zip bases us).map (fun (b, t) => colloc b tol t 0)).reverse
   let cp ← chain (Nall.map Mat.transpose) x pd
   let invs ← Nall.mapM (fun N => invC (Mat.mul (Mat.transpose N) N))
